@@ -19,6 +19,8 @@ class C04(Prop):
     rule = "one record per inverse()/compose()/identity_map()/z2inv call or per group-law evaluation on the code's own results; distinct = distinct record lines"
 
     def models(self):
+        # L2: transcribed GF(2) elimination (z2rank, z2inv) against its definition on all matrices up to 3x3 (4x4 thorough)
+        self.model("MC_Z2", "MC_Z2_t.cfg" if self.tier == "thorough" else "MC_Z2_q.cfg", name="z2_linear_algebra", workers=4, timeout=3000)
         self.maps, self.edges, self.rotmaps = {}, {}, {}
         for n in (1, 2):
             pf = "%s/walk_n%d.txt" % (self.wd, n)
